@@ -282,14 +282,17 @@ INT_POOL = sorted(set(
 INT_POOL = [x for x in INT_POOL if I64_MIN <= x <= I64_MAX]
 UINT_POOL = sorted(set(
     [0, 1, 2, 10, 100, 127, 128, 255, 256]
-    + [(1 << k) + d for k in (7, 8, 15, 16, 31, 32, 53, 63, 64) for d in (-2, -1, 0, 1, 2)]))
+    + [(1 << k) + d for k in (7, 8, 15, 16, 31, 32, 53, 63, 64) for d in (-2, -1, 0, 1, 2)]
+    + [(1 << 63) + 1024, (1 << 63) + 2048, (1 << 63) + 2049, (1 << 64) - 2048, (1 << 64) - 2049, 10 ** 19, 15 * 10 ** 18, 10 ** 19 + 1]))
 UINT_POOL = [x for x in UINT_POOL if 0 <= x <= U64_MAX]
 FLOAT_POOL = [float_to_bits(f) for f in
               [0.0, -0.0, 1.0, -1.0, 0.1, 0.5, 1.5, -2.5, 3.14, 100.0, 1e15, 1e16, 1e17, 1e21, 1e22, 1e23, 123456.789,
                2.0 ** 53, 2.0 ** 53 + 2, -(2.0 ** 53), 2.0 ** 63, 2.0 ** 64, -(2.0 ** 63), 9007199254740991.0,
                5e-324, 2.2250738585072014e-308, 2.225073858507201e-308, 1.7976931348623157e308, 1e-7, 1.5e-7, 1e300,
                7.91252914157506e-14, 8.675514674482229e-196, 127.0, 128.0, 255.0, 256.0, 65535.0, 4294967296.0,
-               0.30000000000000004, 1e-5, 0.001, 12345678.0, 1e7, 123456789012345680.0]]
+               0.30000000000000004, 1e-5, 0.001, 12345678.0, 1e7, 123456789012345680.0,
+               # between the signed and the unsigned 64-bit limits, and the neighbours of both
+               1e19, 1.5e19, 2.0 ** 63 + 2048, 2.0 ** 64 - 2048, 2.0 ** 63 - 1024, -(2.0 ** 63) - 2048, 2.0 ** 62, 2.0 ** 64 + 4096, 1e18]]
 SPECIAL_FLOATS = [0x7FF8000000000000, 0x7FF0000000000000, 0xFFF0000000000000, 0x7FF0000000000001, 0xFFF8000000000000]
 
 CODEPOINTS_SPECIAL = (list(range(0x00, 0x20)) + [0x22, 0x5C, 0x2F, 0x7F, 0x80, 0xFF, 0x100, 0x7FF, 0x800, 0x2028, 0x2029,
